@@ -184,7 +184,9 @@ func (r *Run) Sample(v any) {
 }
 func (r *Run) Violate(sig, desc string, replay []string) {
 	r.Hist["violation:"+sig]++
-	if len(r.Violations) < 50 {
+	// keep at most 2 witnesses per signature (and 400 in all) so that one noisy
+	// signature cannot crowd out a rarer one
+	if r.Hist["violation:"+sig] <= 2 && len(r.Violations) < 400 {
 		r.Violations = append(r.Violations, Violation{sig, desc, replay})
 	}
 }
